@@ -21,9 +21,11 @@
 (* The harness reads the class bodies of pydrex.core.DefaultParams and of  *)
 (* every class of pydrex.mock with the `ast` module - plain assignments    *)
 (* (`x = v`) AND annotated ones (`x: T = v`), i.e. what each class         *)
-(* declares, not what Python's dataclass machinery makes of it - and       *)
-(* passes the table as JSON in the file named by the environment variable  *)
-(* C19_DECL_FILE (values are opaque source texts).  Without the variable   *)
+(* declares, not what Python's dataclass machinery makes of it (a preset   *)
+(* published as an instance, `X = DefaultParams(f = v)`, declares its      *)
+(* keyword arguments) - and passes the table as JSON in the file named by  *)
+(* the environment variable C19_DECL_FILE (values are opaque source        *)
+(* texts, written to a scratch directory).  Without the variable           *)
 (* the table pinned below (the tree this check was written against) is     *)
 (* used, so the module can be checked standalone.                          *)
 (*                                                                         *)
